@@ -52,7 +52,14 @@ pub static POOLS: &[Pool] = &[
             "\u{ff10}",
         ],
     },
-    Pool { name: "sgr", syms: &["\u{1b}", "[", "m", "0", ";", "1", "3", "a", "$", ")", "(", "^", "|"] },
+    Pool {
+        name: "sgr",
+        syms: &[
+            "\u{1b}", "[", "m", "0", ";", "1", "3", "a", "$", ")", "(", "^", "|",
+            // whole SGR look-alikes as literal text (the codes grex itself uses, and others)
+            "\u{1b}[1;3m", "\u{1b}[0m", "\u{1b}[1;36m", "\u{1b}[104;37m", "\u{1b}[1m", "\u{1b}[38;5;1m", "[0m", "b",
+        ],
+    },
     Pool {
         name: "boundary",
         syms: &[
